@@ -77,6 +77,36 @@ def values_for(rng, width, n_random):
             seen.append(v)
     return seen
 
+def put_bits(buf, first, width, value):
+    """bytes with the bit range [first, first+width) (wire numbering, MSB first) replaced by value mod 2^width"""
+    b = bytearray(buf)
+    for k in range(width):
+        pos = first + k
+        if pos // 8 >= len(b):
+            break
+        bit = (value >> (width - 1 - k)) & 1
+        if bit:
+            b[pos // 8] |= 0x80 >> (pos % 8)
+        else:
+            b[pos // 8] &= ~(0x80 >> (pos % 8)) & 0xff
+    return bytes(b)
+
+def related_priors(rng, n, first, width, v):
+    """prior buffer contents RELATED to the value about to be written to the field: the field already holds v, v with one
+    half replaced, v with one bit flipped; surrounded by never-zero random bytes.  A 'nothing to do' shortcut that compares
+    (part of) the current content with the value is only visible on such buffers."""
+    if width == 0:
+        return []
+    m = (1 << width) - 1
+    h = width // 2
+    lo = (1 << h) - 1
+    cur = [v & m, (v & lo) | (rng.bits(width) & ~lo & m), (v & ~lo & m) | (rng.bits(width) & lo), (v ^ 1) & m, (v ^ (1 << (width - 1))) & m]
+    out = []
+    for c in cur:
+        base = bytes(x | 1 for x in rng.bytes(n))
+        out.append(put_bits(base, first, width, c))
+    return out
+
 # ---------------------------------------------------------------------------
 def get_cases(ctx, fmts, rng, tier, trailing=(0, 3)):
     """named-field reads through both paths"""
@@ -111,9 +141,13 @@ def set_cases(ctx, fmts, rng, tier, trailing=(0, 5)):
                 n = f.hdr + extra
                 fills = [bytes(n), bytes([0xff]) * n, bytes([0xa5]) * n] + [rng.bytes(n) for _ in range(nr)]
                 vals = values_for(rng, fld['width'], nr)
-                for b in fills:
+                combos = [(b, v) for b in fills for v in (vals if extra == trailing[0] else vals[:4])]
+                if extra == trailing[0]:
+                    for v in [rng.bits(fld['width']), rng.bits(64), (1 << fld['width']) - 1]:
+                        combos += [(b, v) for b in related_priors(rng, n, fld['first'], fld['width'], v)]
+                for b, v in combos:
                     hb = hexbuf(b)
-                    for v in (vals if extra == trailing[0] else vals[:4]):
+                    if True:
                         spec = 'SS %s %s %s %x' % (f.name, fld['name'], hb, v)
                         if idx is not None:
                             cases.append({'kind': 'set', 'cmd': 'S %s %s %x %x' % (f.set_field, hb, idx, v), 'spec': spec,
@@ -133,6 +167,13 @@ def init_cases(ctx, fmts, rng, tier, trailing=(0, 7)):
         for extra in trailing:
             n = f.hdr + extra
             fills = [bytes(n), bytes([0xff]) * n, bytes([0xa5]) * n, bytes([0x5a]) * n] + [rng.bytes(n) for _ in range(nr)]
+            # prior contents RELATED to the result: the first k bytes already equal the canonical header, never-zero garbage behind
+            # (an "already initialised" shortcut that looks at part of the header must still produce the whole canonical header)
+            if f.canon and f.canon != 'NONE':
+                canon = bytes.fromhex(f.canon)
+                for k in sorted(set([1, 2, 4, 8, 12, f.hdr])):
+                    if k <= f.hdr:
+                        fills.append(canon[:k] + bytes(x | 1 for x in rng.bytes(n - k)))
             for b in fills:
                 hb = hexbuf(b)
                 cases.append({'kind': 'init', 'cmd': 'I %s %s' % (f.init, hb), 'spec': 'SI %s %s' % (f.name, hb),
